@@ -34,7 +34,7 @@ REQUIRED_LABELS = {"opt:graded": 0.2, "opt:symcls": 0.2, "opt:wrapper": 0.2, "op
 
 
 def budget(tier):
-    n = int(os.environ.get("KV_EXAMPLES", 0)) or (2400 if tier == "quick" else 30000)
+    n = int(os.environ.get("KV_EXAMPLES", 0)) or (6000 if tier == "quick" else 30000)
     return {"examples": n, "shards": 16, "wall": 100 if tier == "quick" else 1200}
 
 
